@@ -76,6 +76,9 @@ type kvSys struct {
 	late bool
 	// afterLeave: upserts/deletes stay enabled after a leave; noLeave: no leave
 	afterLeave, noLeave bool
+	// relay: at the end the stale observer catches up through a third node that
+	// took the owner's state in full (and never saw what the observer saw)
+	relay bool
 }
 
 func (s *kvSys) New() mc.Instance[kvEvent] {
@@ -377,6 +380,15 @@ func (in *kvInst) Final() []mc.Violation {
 	var vs []mc.Violation
 	fresh := gossip.VNewClusterState("new", "10.0.0.3:7000", nopFD{}, sharedGossipMetrics, nopWatcher{})
 	own := in.owner.LocalNode()
+	if in.sys.relay {
+		relay := gossip.VNewClusterState("relay", "10.0.0.4:7000", nopFD{}, sharedGossipMetrics, nopWatcher{})
+		syncObserver(in.owner, relay)
+		syncObserver(relay, in.stale)
+		if v, ok := in.stale.Node("own"); ok && v.Version == own.Version && mapStr(live(v)) != mapStr(in.ref) {
+			vs = append(vs, mc.Violation{Property: "C17", Clause: "observer", Sig: "observer-live-state-differs-via-relay",
+				Msg: fmt.Sprintf("the stale observer caught up through a node that had taken the owner's state in full: it reports the owner's version %d and sees {%s}, last-write-wins gives {%s}; owner %s, view %s", own.Version, mapStr(live(v)), mapStr(in.ref), descNodeState(own), descNodeState(v))})
+		}
+	}
 	for name, obs := range map[string]*gossip.VClusterState{"stale": in.stale, "fresh": fresh} {
 		syncObserver(in.owner, obs)
 		v, ok := obs.Node("own")
@@ -401,6 +413,7 @@ type kvReplay struct {
 	Late    bool      `json:"late_deltas"`
 	After   bool      `json:"writes_after_leave"`
 	NoLeave bool      `json:"no_leave"`
+	Relay   bool      `json:"stale_observer_catches_up_through_relay,omitempty"`
 }
 
 func init() {
@@ -422,12 +435,14 @@ func init() {
 		extra := []*kvSys{
 			{keys: []string{"a"}, vals: []string{"", "1"}, afterLeave: true},
 			{keys: []string{"a"}, vals: []string{"1"}, late: true, noLeave: true},
+			{keys: []string{"a", "b"}, vals: []string{"1"}, relay: true, noLeave: true},
 		}
 		if run.Thorough() {
 			extra = []*kvSys{
 				{keys: []string{"a", "b"}, vals: []string{"", "1"}, afterLeave: true},
 				{keys: []string{"a"}, vals: []string{"", "1"}, late: true, noLeave: true},
 				{keys: []string{"a", "b"}, vals: []string{"1"}, late: true, noLeave: true},
+				{keys: []string{"a", "b"}, vals: []string{"", "1"}, relay: true},
 			}
 		}
 		var xs []map[string]any
@@ -451,7 +466,7 @@ func init() {
 				for _, e := range f.History {
 					p = append(p, e.String())
 				}
-				run.Violation("C17", f.V.Sig, f.V.Msg, kvReplay{"E3-C17", xsys.keys, xsys.vals, f.History, p, xsys.late, xsys.afterLeave, xsys.noLeave})
+				run.Violation("C17", f.V.Sig, f.V.Msg, kvReplay{"E3-C17", xsys.keys, xsys.vals, f.History, p, xsys.late, xsys.afterLeave, xsys.noLeave, xsys.relay})
 			}
 			fmt.Printf("  C17 (keys %v values %q late=%v writes-after-leave=%v): states=%d transitions=%d depth=%d exhaustive=%v %s\n", xsys.keys, xsys.vals, xsys.late, xsys.afterLeave, lres.States, lres.Transitions, lres.DepthCompleted, lres.Exhaustive, lres.CapHit)
 			xs = append(xs, map[string]any{"keys": xsys.keys, "values": xsys.vals, "late_deltas": xsys.late, "writes_after_leave": xsys.afterLeave, "states": lres.States, "transitions": lres.Transitions, "exhaustive": lres.Exhaustive, "cap_hit": lres.CapHit})
@@ -470,7 +485,7 @@ func init() {
 			for _, e := range f.History {
 				p = append(p, e.String())
 			}
-			run.Violation("C17", f.V.Sig, f.V.Msg, kvReplay{"E3-C17", keys, vals, f.History, p, false, false, false})
+			run.Violation("C17", f.V.Sig, f.V.Msg, kvReplay{"E3-C17", keys, vals, f.History, p, false, false, false, false})
 		}
 		for _, s := range res.Samples {
 			var p []string
@@ -503,7 +518,7 @@ func init() {
 		readJSON(path, &doc)
 		var outs [2]string
 		for k := 0; k < 2; k++ {
-			in := (&kvSys{keys: doc.Replay.Keys, vals: doc.Replay.Vals, late: doc.Replay.Late, afterLeave: doc.Replay.After, noLeave: doc.Replay.NoLeave}).New().(*kvInst)
+			in := (&kvSys{keys: doc.Replay.Keys, vals: doc.Replay.Vals, late: doc.Replay.Late, afterLeave: doc.Replay.After, noLeave: doc.Replay.NoLeave, relay: doc.Replay.Relay}).New().(*kvInst)
 			out := ""
 			for i, e := range doc.Replay.History {
 				vs := in.Apply(e)
